@@ -37,7 +37,7 @@ ASSUMPTIONS = [
     "inputs are the shapes/index maps the Python layer produces for the seeded worlds (<= 64 supercell atoms); equivalence with the reference over the whole input space is not decided here",
 ]
 
-DRIVERS = ["dm_batch", "dm_batch", "mesh_tp", "dos", "pdos", "ddm", "d2f", "gl_perq", "thm_iw", "qp_gv", "tp_direct", "dm_at_q_direct"]
+DRIVERS = ["dm_batch", "dm_batch", "mesh_tp", "dos", "pdos", "ddm", "d2f", "gl_perq", "thm_iw", "qp_gv", "tp_direct", "dm_at_q_direct", "fc_kernels"]
 
 _E = None
 
@@ -297,7 +297,57 @@ def drv_dm_at_q_direct(ph, w, a, st):
     return out
 
 
-DRV = dict(dm_batch=drv_dm_batch, mesh_tp=drv_mesh_tp, dos=drv_dos, pdos=drv_pdos, ddm=drv_ddm, d2f=drv_d2f, gl_perq=drv_gl_perq,
+def drv_fc_kernels(ph, w, a, st):
+    """The serial kernels behind force-constant handling, on the shapes and index maps the Python layer passes:
+    distribute_fc2 (finite-difference solver), perm_trans_symmetrize_fc / _compact_fc, transpose_compact_fc (drift
+    display), compute_permutation, set_smallest_vectors (sparse / dense), full<->compact conversion, cutoff.  No parallel
+    region: what the simulator contributes here is the bounds monitor; C vs serial0 vs the Python fallbacks are compared."""
+    import contextlib
+    import io
+
+    from phonopy import Phonopy
+    from phonopy.harmonic.force_constants import (compact_fc_to_full_fc, full_fc_to_compact_fc, show_drift_force_constants,
+                                                  symmetrize_compact_force_constants, symmetrize_force_constants)
+
+    out = {}
+    fc_full = st["fc_model"]
+    rng = np.random.Generator(np.random.PCG64(st["seed"] & 0xFFFFFFFF))
+    noisy = fc_full + 1e-3 * rng.standard_normal(fc_full.shape)
+    level = 1 + len(a["qpoints"]) % 3
+    if st.get("py_fallback"):
+        # only symmetrize_force_constants has an in-repository Python version (the cell construction has none)
+        f = np.array(noisy)
+        symmetrize_force_constants(f, level=level)
+        return {"sym_full": f}
+    p2 = Phonopy(ph.unitcell, supercell_matrix=ph.supercell_matrix, primitive_matrix=ph.primitive_matrix, store_dense_svecs=a["dense_svecs"],
+                 is_symmetry=not a["classical"], log_level=0)
+    svecs, multi = p2.primitive.get_smallest_vectors()
+    out["svecs"] = np.array(svecs)
+    out["multi"] = np.array(multi)
+    out["perms"] = np.array(p2.primitive.atomic_permutations)
+    p2.generate_displacements(distance=0.03, is_plusminus=("auto" if a["gamma_center"] else True), is_diagonal=a["mesh_symmetry"])
+    p2.forces = w.type1_forces(p2, fc_full)
+    p2.produce_force_constants(calculate_full_force_constants=not a["compact"])
+    out["fc_fd"] = np.array(p2.force_constants)
+    f = np.array(noisy)
+    symmetrize_force_constants(f, level=level)
+    out["sym_full"] = f
+    c = np.ascontiguousarray(noisy[p2.primitive.p2s_map])
+    symmetrize_compact_force_constants(c, p2.primitive, level=level)
+    out["sym_compact"] = c
+    c2 = np.ascontiguousarray(noisy[p2.primitive.p2s_map])
+    with contextlib.redirect_stdout(io.StringIO()):
+        show_drift_force_constants(c2, primitive=p2.primitive)  # transposes twice in place: must come back unchanged
+    out["transposed_twice"] = c2
+    out["c2f"] = compact_fc_to_full_fc(p2.primitive, np.ascontiguousarray(fc_full[p2.primitive.p2s_map]))
+    out["f2c"] = full_fc_to_compact_fc(p2.primitive, np.array(fc_full))
+    p2.force_constants = np.array(fc_full)
+    p2.set_force_constants_zero_with_radius(2.5 + 0.5 * len(a["temperatures"]))
+    out["cutoff"] = np.array(p2.force_constants)
+    return out
+
+
+DRV = dict(fc_kernels=drv_fc_kernels, dm_batch=drv_dm_batch, mesh_tp=drv_mesh_tp, dos=drv_dos, pdos=drv_pdos, ddm=drv_ddm, d2f=drv_d2f, gl_perq=drv_gl_perq,
            thm_iw=drv_thm_iw, qp_gv=drv_qp_gv, tp_direct=drv_tp_direct, dm_at_q_direct=drv_dm_at_q_direct)
 PY_LANG = {"ddm", "d2f", "thm_iw"}  # drivers with an in-repository Python version selectable by lang=
 
@@ -373,6 +423,7 @@ def execute(spec):
     E.use(variant)
     sim.serial()
     ph = w.build(compact=a["compact"], store_dense_svecs=a["dense_svecs"])
+    st["fc_model"] = w.force_constants(ph.supercell)
     st_build = sim.stats()
     check_monitors("world construction")
     probes["kernel_accesses_checked_in_world_construction"] = st_build["bounds_checked"]
@@ -395,6 +446,8 @@ def execute(spec):
     bit_identical = 0
     compared = 0
     scheds = [dict(s) for s in spec["schedules"]]
+    if driver == "fc_kernels":
+        scheds = scheds[:1]  # serial kernels: no schedule dimension
     i = 0
     extra_directed = 0
     trace_out = None
@@ -482,6 +535,15 @@ def execute(spec):
             _reset(ph)
             pyref = fn(ph, w, a, st2)
             E.use(variant)
+        elif driver == "fc_kernels":
+            E.use("none")
+            try:
+                pyref = fn(ph, w, a, dict(st, py_fallback=True))
+            finally:
+                E.use(variant)
+            # the pure-Python construction (compute_permutation fallback) must give the same index maps; the Python
+            # symmetriser the same force constants
+            pyref = {"sym_full": pyref["sym_full"]}
         elif driver == "mesh_tp":
             E.use("serial")
             _reset(ph)
